@@ -70,9 +70,11 @@ theorem armSell_spec {t : Tracker} {tx : Tx} {pre : Status} {sh px comm rate : R
       split at h
       · rename_i hp
         have := perShareAcb_none hp
-        simp only [Except.ok.injEq] at h
-        subst h
-        simp [bookOf, stepBook, gain0, this]
+        split at h
+        · cases h
+        · simp only [Except.ok.injEq] at h
+          subst h
+          simp [bookOf, stepBook, gain0, this]
       · rename_i aps hp
         obtain ⟨a, ha, haps⟩ := perShareAcb_some hp
         simp only [hS, if_true] at haps
